@@ -785,6 +785,16 @@ func (w *World) AddV1(txns []types.Transaction, oks []bool) (res string) {
 	if DigestV1(txns) != before {
 		w.C.Oracle("addpooltransactions-modifies-caller", "AddPoolTransactions changed the caller's transactions")
 	}
+	if known && err != nil {
+		// "known" is reported exactly when every transaction of the set was already pooled - also next to an error
+		pool := w.PoolIDs()
+		for _, t := range txns {
+			if !pool[t.ID()] {
+				w.C.Oracle("addpooltransactions-known-with-error-although-new", "AddPoolTransactions returned known=true together with an error (%v) for a set containing transaction %d, which was never pooled", err, w.Tx(t.ID()))
+				break
+			}
+		}
+	}
 	if err != nil && os.Getenv("VH_DEBUG") != "" {
 		fmt.Fprintf(os.Stderr, "DEBUG %s op %d add1: %v\n", w.C.Name, len(w.C.Ops), err)
 	}
@@ -833,6 +843,15 @@ func (w *World) AddV2(basis int, txns []types.V2Transaction, oks []bool) (res st
 	}
 	if DigestV2(txns) != before {
 		w.C.Oracle("addv2pooltransactions-modifies-caller", "AddV2PoolTransactions changed the caller's transactions (documented: not modified)")
+	}
+	if known && err != nil {
+		pool := w.PoolIDs()
+		for _, t := range txns {
+			if !pool[t.ID()] {
+				w.C.Oracle("addv2pooltransactions-known-with-error-although-new", "AddV2PoolTransactions returned known=true together with an error (%v) for a set containing transaction %d, which was never pooled", err, w.Tx(t.ID()))
+				break
+			}
+		}
 	}
 	if err != nil && os.Getenv("VH_DEBUG") != "" {
 		fmt.Fprintf(os.Stderr, "DEBUG %s op %d add2: %v\n", w.C.Name, len(w.C.Ops), err)
